@@ -262,6 +262,8 @@ theorem c17_subst_tupleLit (σ : List (String × Ty)) (ts : List Ty) :
     substTy σ (.tupleLit ts) = .tupleLit (substTys σ ts) := by simp only [substTy]
 theorem c17_subst_cls (σ : List (String × Ty)) (n : String) (ts : List Ty) :
     substTy σ (.cls n ts) = .cls n (substTys σ ts) := by simp only [substTy]
+theorem c17_subst_structLit (σ : List (String × Ty)) (ns : List String) (ts : List Ty) :
+    substTy σ (.structLit ns ts) = .structLit ns (substTys σ ts) := by simp only [substTy]
 
 /-- one-level flattening of union members -/
 def c17_flat (ts : List Ty) : List Ty := ts.flatMap fun t => match t with | .union us => us | t => [t]
@@ -307,6 +309,7 @@ def c17_normalTy : Ty → Bool
   | .annotated t _ => c17_normalTy t
   | .tupleLit ts => c17_normalTys ts
   | .cls _ ts => c17_normalTys ts
+  | .structLit _ ts => c17_normalTys ts
   | _ => true
 def c17_normalTys : List Ty → Bool
   | [] => true
@@ -324,6 +327,7 @@ def c17_fresh (σ : List (String × Ty)) : Ty → Bool
   | .annotated t _ => c17_fresh σ t
   | .tupleLit ts => c17_freshs σ ts
   | .cls _ ts => c17_freshs σ ts
+  | .structLit _ ts => c17_freshs σ ts
   | _ => true
 def c17_freshs (σ : List (String × Ty)) : List Ty → Bool
   | [] => true
@@ -341,6 +345,7 @@ def c17_noVars : Ty → Bool
   | .annotated t _ => c17_noVars t
   | .tupleLit ts => c17_noVarss ts
   | .cls _ ts => c17_noVarss ts
+  | .structLit _ ts => c17_noVarss ts
   | _ => true
 def c17_noVarss : List Ty → Bool
   | [] => true
@@ -356,6 +361,7 @@ def c17_unionFree : Ty → Bool
   | .annotated t _ => c17_unionFree t
   | .tupleLit ts => c17_unionFrees ts
   | .cls _ ts => c17_unionFrees ts
+  | .structLit _ ts => c17_unionFrees ts
   | _ => true
 def c17_unionFrees : List Ty → Bool
   | [] => true
@@ -417,7 +423,9 @@ theorem c17_subst_fresh (σ : List (String × Ty)) : ∀ t : Ty, c17_normalTy t 
   | .literal _, _, _ => by simp only [substTy]
   | .enum _, _, _ => by simp only [substTy]
   | .sub _ _, _, _ => by simp only [substTy]
-  | .structLit _ _, _, _ => by simp only [substTy]
+  | .structLit ns ts, hn, hf => by
+    simp only [c17_normalTy] at hn; simp only [c17_fresh] at hf
+    rw [c17_subst_structLit, c17_substs_fresh σ ts hn hf]
   | .cls nm ts, hn, hf => by
     simp only [c17_normalTy] at hn; simp only [c17_fresh] at hf
     rw [c17_subst_cls, c17_substs_fresh σ ts hn hf]
@@ -448,7 +456,7 @@ theorem c17_fresh_nil : ∀ t : Ty, c17_fresh [] t = true
   | .literal _ => by simp only [c17_fresh]
   | .enum _ => by simp only [c17_fresh]
   | .sub _ _ => by simp only [c17_fresh]
-  | .structLit _ _ => by simp only [c17_fresh]
+  | .structLit _ ts => by simp only [c17_fresh, c17_freshs_nil ts]
   | .cls nm ts => by simp only [c17_fresh, c17_freshs_nil ts]
   | .pattern _ => by simp only [c17_fresh]
   | .ndarray => by simp only [c17_fresh]
@@ -474,7 +482,7 @@ theorem c17_fresh_of_noVars (σ : List (String × Ty)) : ∀ t : Ty, c17_noVars 
   | .literal _, _ => by simp only [c17_fresh]
   | .enum _, _ => by simp only [c17_fresh]
   | .sub _ _, _ => by simp only [c17_fresh]
-  | .structLit _ _, _ => by simp only [c17_fresh]
+  | .structLit _ ts, h => by simp only [c17_noVars] at h; simp only [c17_fresh, c17_freshs_of_noVars σ ts h]
   | .cls nm ts, h => by simp only [c17_noVars] at h; simp only [c17_fresh, c17_freshs_of_noVars σ ts h]
   | .pattern _, _ => by simp only [c17_fresh]
   | .ndarray, _ => by simp only [c17_fresh]
@@ -504,7 +512,7 @@ theorem c17_normal_of_unionFree : ∀ t : Ty, c17_unionFree t = true → c17_nor
   | .literal _, _ => by simp only [c17_normalTy]
   | .enum _, _ => by simp only [c17_normalTy]
   | .sub _ _, _ => by simp only [c17_normalTy]
-  | .structLit _ _, _ => by simp only [c17_normalTy]
+  | .structLit _ ts, h => by simp only [c17_unionFree] at h; simp only [c17_normalTy, c17_normals_of_unionFree ts h]
   | .cls nm ts, h => by simp only [c17_unionFree] at h; simp only [c17_normalTy, c17_normals_of_unionFree ts h]
   | .pattern _, _ => by simp only [c17_normalTy]
   | .ndarray, _ => by simp only [c17_normalTy]
@@ -565,7 +573,9 @@ theorem c17_subst_comp (σ₁ σ₂ : List (String × Ty)) : ∀ t : Ty, c17_uni
   | .literal _, _ => by simp only [substTy]
   | .enum _, _ => by simp only [substTy]
   | .sub _ _, _ => by simp only [substTy]
-  | .structLit _ _, _ => by simp only [substTy]
+  | .structLit ns ts, h => by
+    simp only [c17_unionFree] at h
+    rw [c17_subst_structLit, c17_subst_structLit, c17_subst_structLit, c17_substs_comp σ₁ σ₂ ts h]
   | .cls nm ts, h => by
     simp only [c17_unionFree] at h
     rw [c17_subst_cls, c17_subst_cls, c17_subst_cls, c17_substs_comp σ₁ σ₂ ts h]
